@@ -1737,6 +1737,10 @@ class XEval(AutoEvaluator):
             node = new
         d = dotted(node.func)
         nargs, kws = len(node.args), {k.arg for k in node.keywords}
+        # (pass 6) np.ravel(X) is X seen flat, exactly like X.ravel() (which the base evaluator writes as X): a store through
+        # the result is a store into X (the rule that reads a one-index store into a two-axis table checks that it is a view)
+        if d in ("np.ravel", "numpy.ravel") and nargs == 1 and not kws and not isinstance(node.args[0], ast.Starred):
+            return self.ev(node.args[0])
         # ---- function spellings of operators:  np.greater_equal(a, b) is a >= b,  np.subtract(a, b) is a - b,  np.multiply(a, b, out=a) is a *= b
         if d in self.FUNC_CMP and nargs == 2 and not kws:
             a, b = self.ev(node.args[0]), self.ev(node.args[1])
